@@ -29,7 +29,9 @@ C = 4                                   # a, b, c, blank
 CHARS = ['a', 'b', 'c']
 WIDTHS = [1, 3, 4, 5, 31, 32, 33, 100, 290, 300, 440]        # 440: fits the smallest engine maximum (480 px) only after the right padding is cut
 # alphabet entries: (width, content seed)
-CROPS = [(w, i) for i, w in enumerate(WIDTHS)] + [(32, 40), (500, 41), (36, 50), (2, 60)]   # seed 50: very confident frames; seed 60: blank crop
+CROPS = [(w, i) for i, w in enumerate(WIDTHS)] + [(32, 40), (500, 41), (36, 50), (2, 60), (448, 70), (417, 71)]
+# seed 50: very confident frames; seed 60: blank crop; 448 px fills the smallest engine maximum (480 px) exactly; 417 px is the first width
+# whose padded tensor (rounded up to a multiple of 32) does
 MODES = ['sparse', 'dense', 'tight', 'nologits']
 DEPTH3_QUICK = [0, 4, 5, 7, 8, 9, 10, 11, 12, 14]      # lists of 3 in the quick tier use this sub-alphabet
 BOUNDS = {'quick': dict(depth=3, bs=[1, 2, 3, 16], bs3=[1, 16], ctx3=[0], deep_alphabet=0),
